@@ -62,6 +62,13 @@ claim("C16", "runtime monitoring: differential oracle (middleware vs. wrapped tr
       "See notes/reports/C16.md. Three teleport chains under ibc-go's testing package; ICS-20 packets over registered/unregistered denominations, enabled/disabled/paused/self-destructed pairs, malicious tokens, hostile receivers/amounts, native coins returning home, malformed data; middleware and wrapped module must return the same acknowledgement; after MsgRecvPacket the ack store holds exactly the transfer application's ack; receiver ends fully converted or untouched.",
       "Receivers with 32-byte addresses are counted, not judged (statement does not pin the EVM account).")
 
+claim("C13", "runtime monitoring: differential oracle - raw store dumps before export vs. after InitGenesis into a fresh chain, the modules' own ValidateGenesis in between, re-export compared byte for byte",
+      "See notes/reports/C13.md. Module states reached by 3-chain relay histories, governance-driven registry histories and direct population through the keepers (all four client types, heights/revisions over all byte patterns incl. 0x2f and key look-alikes, toggled/upgraded clients, BSC/ETH/TM metadata, relayers, boundary sequences, multi-denomination pairs, params) are exported with the app's exporter, validated, imported into a fresh node; xibc and aggregate stores and both param subspaces must be identical key for key, and the second export identical JSON.",
+      "EVM contract storage is exported by the evm module and is outside the statement.")
+claim("C18", "runtime monitoring: lifecycle model over all ordered client-type pairs with proposals executed the way governance does and updates delivered as transactions; usability oracle (status, type-specific metadata, real proof at the installed height)",
+      "See notes/reports/C18.md. Create/upgrade/toggle over all 16 ordered pairs of {Tendermint, BSC, ETH, TSS} with valid and invalid contents plus random sequences; success => stored client/consensus state equal the proposal, the new type's initialisation present, Status Active, a real proof at the installed height verifies after the delay (ICS-23 from a partner chain / generated Merkle-Patricia state / TSS signer), a valid update from the authorised account succeeds; failure => the client prefix of the store is byte-identical.",
+      "A valid proposal is not required to succeed (only counted).")
+
 # optional per-agent additions are appended by later edits of this file
 exec(open('/verif/scripts/manifest_more.py').read()) if __import__('os').path.exists('/verif/scripts/manifest_more.py') else None
 
